@@ -58,8 +58,16 @@ def run(ctx):
         if numel >= 4 and rng.random() < 0.4:
             dead[rng.permutation(numel)[: int(rng.integers(1, numel - 2))]] = True
         probe.dead_elements = dead
-        dist = np.where(tx == rx, d_el[tx], rng.uniform(0, 1, size=len(tx)))  # garbage elsewhere
-        dist = np.where(dead[tx] | dead[rx], rng.uniform(0, 1, size=len(tx)), dist)
+        # whatever values on the timetraces the registration does not use (non-pulse-echo, dead elements): positive,
+        # negative, sentinels, NaN, huge
+        def garbage():
+            kind = int(rng.integers(0, 5))
+            g_ = [rng.uniform(0, 1, size=len(tx)), rng.uniform(-1, 1, size=len(tx)), np.full(len(tx), -1.0), np.full(len(tx), np.nan),
+                  rng.choice([1e30, -1e30, 0.0], size=len(tx))][kind]
+            ctx.count(f"garbage_kind={kind}")
+            return g_
+        dist = np.where(tx == rx, d_el[tx], garbage())
+        dist = np.where(dead[tx] | dead[rx], garbage(), dist)
         x0 = probe.locations.x.copy()
         fr = fixtures.make_frame(np.zeros((len(tx), 4)), 0.0, 1e-8, tx, rx, probe, None)
         cj = {"op": "move_probe_over_flat_surface", "numel": numel, "x": x0.tolist(), "theta": theta, "standoff": standoff, "tx": tx.tolist(), "rx": rx.tolist(),
